@@ -41,6 +41,14 @@ CHECKS = {
                      'delay, Master only, managed only, stop set per strategy (survivor by true spawn instants), '
                      'nothing else stopped, USER stops nothing, no conflict and OPERATION at the end', ref='8/C05',
                 note=TRUST_L3),
+    'C06': dict(engine=ENGINE_L3 + ' + ' + ENGINE_L1, technique='runtime monitoring: (L3) offline oracle over the '
+                "recorded plans of the Master's Starter / Stopper (hooks on their entry points) against the action "
+                "computed from the rules model and the Master's own status API read just before each invalidation, "
+                'wrappers on the handler entry points of every instance; (L1) reference-model monitor of the four job '
+                'sets and of the dispatches of the real RunningFailureHandler under random call histories',
+                text='held on every loss acknowledged by a Master that stays Master until the cluster settles, except '
+                     'the listed known finding (ELECTION aborts the failure handling), and on every handler history '
+                     'generated', ref='8/C06', note=TRUST_L3),
     'C07': dict(engine=ENGINE_L3, technique='runtime monitoring: online shadow counter per (observer, peer) fed by the '
                 'TICK deliveries and XML-RPC failures seen on the transport, evaluated around every periodic check '
                 '(hooks on the timer / tick / failure entry points and on every peer state change), plus an edge '
